@@ -39,6 +39,10 @@ func ManyParamPatterns() []string {
 	return []string{sb.String() + "/a/c", sb.String() + "/{wl}/b"}
 }
 
+// HighByteSiblings join the wide node of the fan-out shape: their first bytes lie 129 or more above the ASCII siblings
+// (unsigned byte order), and each first byte is shared by two routes, so that the second write has to find the edge.
+var HighByteSiblings = []string{"/f/\u00e9x", "/f/\u00e9y", "/f/\u65e5\u672c", "/f/\u65e5\u8a18", "/f/\u00ffz", "/f/\u00ffy/{p}"}
+
 var statics = []string{"a", "b", "ab", "ba", "c"}
 
 // oddStatics start with bytes on every side of the wildcard markers in byte order ('*' = 0x2A, '{' = 0x7B): child
@@ -242,7 +246,8 @@ func GenPool(s sim.Source, cfg PoolCfg) []*model.Pattern {
 			}
 		}
 		// siblings on the far sides of the wildcard markers, and wildcard children of the wide node with routes below them
-		for _, raw := range []string{"/f/!x", "/f/$x", "/f/|x", "/f/~x", "/f/{p}", "/f/*{q}", "/f/{p}/t", "/f/*{q}/t"} {
+		// (... and, HighByteSiblings, edges starting with bytes >= 0x80, two routes behind each of them)
+		for _, raw := range append([]string{"/f/!x", "/f/$x", "/f/|x", "/f/~x", "/f/{p}", "/f/*{q}", "/f/{p}/t", "/f/*{q}/t"}, HighByteSiblings...) {
 			if p, err := model.Parse(raw); err == nil && !seen[raw] {
 				seen[raw] = true
 				out = append(out, p)
